@@ -13,6 +13,11 @@ use stellar_access::access_control::{self as ac, AccessControl};
 use stellar_access::ownable::{self, Ownable};
 use stellar_macros::{only_admin, only_owner};
 
+mod ownable_ex {
+    #[path = "/repo/examples/ownable/src/contract.rs"]
+    pub mod c;
+}
+
 #[contract]
 pub struct Own;
 #[contractimpl]
@@ -73,6 +78,8 @@ pub enum Step {
 pub enum Flavour {
     Ownable,
     AccessControl,
+    /// examples/ownable compiled from source (`increment` is #[only_owner])
+    OwnableExample,
 }
 #[derive(Clone, Debug, Serialize, Deserialize)]
 pub struct Cfg {
@@ -160,7 +167,7 @@ impl Check for Handshake {
         }
     }
     fn components(&self) -> serde_json::Value {
-        serde_json::json!({"real": ["stellar_access::ownable::* (trait defaults, #[only_owner])", "stellar_access::access_control::{transfer_admin_role, accept_admin_transfer, renounce_admin, #[only_admin]}", "stellar_access::role_transfer::*", "soroban host: temporary storage TTL with min_temp_entry_ttl = 1, auth-tree matching"], "stub": ["Wallet (accept-all signature check)"]})
+        serde_json::json!({"real": ["stellar_access::ownable::* (trait defaults, #[only_owner])", "examples/ownable (from source)", "stellar_access::access_control::{transfer_admin_role, accept_admin_transfer, renounce_admin, #[only_admin]}", "stellar_access::role_transfer::*", "soroban host: temporary storage TTL with min_temp_entry_ttl = 1, auth-tree matching"], "stub": ["Wallet (accept-all signature check)"]})
     }
     fn property_of(&self, check: &str) -> std::vec::Vec<&'static str> {
         // the guarded-function clauses are shared with C06 (owner / admin only; nobody after renouncing)
@@ -180,7 +187,7 @@ impl Check for Handshake {
         vec!["probe.offer_replaced_by_shorter", "probe.accept_at_deadline", "probe.accept_one_past_deadline", "probe.accept_after_cancel", "probe.accept_replaced_pending", "probe.renounce_while_pending", "probe.accept_in_window_of_longer_earlier_offer"]
     }
     fn generate(&self, rng: &mut Rng, tier: Tier) -> (Cfg, std::vec::Vec<Step>) {
-        let cfg = Cfg { flavour: *rng.pick(&[Flavour::Ownable, Flavour::AccessControl]), actors: 3 + rng.below(3) as usize, start_ledger: 2 + rng.below(1_000_000) as u32 };
+        let cfg = Cfg { flavour: *rng.pick(&[Flavour::Ownable, Flavour::AccessControl, Flavour::AccessControl, Flavour::OwnableExample]), actors: 3 + rng.below(3) as usize, start_ledger: 2 + rng.below(1_000_000) as u32 };
         let n = cfg.actors as u64;
         let nsteps = if tier == Tier::Quick { 10 + rng.below(30) } else { 10 + rng.below(50) } as usize;
         let mut m = Model { holder: Some(0), pending: None, past_deadlines: vec![], now: cfg.start_ledger };
@@ -254,8 +261,13 @@ impl Check for Handshake {
         let e = &w.e;
         assert_eq!(e.storage().max_ttl(), MAX_TTL);
         let a = |i: usize| w.actors[i].clone();
-        let own = cfg.flavour == Flavour::Ownable;
-        let id = if own { e.register(Own, (a(0),)) } else { e.register(Adm, (a(0),)) };
+        let own = cfg.flavour != Flavour::AccessControl;
+        let id = match cfg.flavour {
+            Flavour::Ownable => e.register(Own, (a(0),)),
+            Flavour::AccessControl => e.register(Adm, (a(0),)),
+            Flavour::OwnableExample => e.register(ownable_ex::c::ExampleContract, (a(0),)),
+        };
+        let f_guarded: &'static str = if cfg.flavour == Flavour::OwnableExample { "increment" } else { "guarded" };
         let (f_offer, f_accept, f_renounce, f_get) = if own { ("transfer_ownership", "accept_ownership", "renounce_ownership", "get_owner") } else { ("transfer_admin_role", "accept_admin_transfer", "renounce_admin", "get_admin") };
         let call = |f: &str, args: SVec<Val>| -> bool { e.try_invoke_contract::<Val, soroban_sdk::Error>(&id, &Symbol::new(e, f), args).map(|r| r.is_ok()).unwrap_or(false) };
         let one = |who: Option<usize>, f: &'static str, args: SVec<Val>| match who {
@@ -333,8 +345,8 @@ impl Check for Handshake {
                     ("renounce", call(f_renounce, ().into_val(e)))
                 }
                 Step::Guarded { signer } => {
-                    one(*signer, "guarded", ().into_val(e));
-                    ("guarded", call("guarded", ().into_val(e)))
+                    one(*signer, f_guarded, ().into_val(e));
+                    ("guarded", call(f_guarded, ().into_val(e)))
                 }
             };
             match s {
